@@ -62,16 +62,35 @@ fn users() -> Vec<(String, UserFn)> {
     ]
 }
 
+/// Other programs stored in the same context; an identifier naming one evaluates it. They need no bindings:
+/// a value, null, a map, two ordinary failures, an absent field, an unbound name.
+fn stored_programs() -> Vec<(String, rscel::Program)> {
+    thread_local! {
+        static PROGS: Vec<(String, rscel::Program)> = [
+            ("pval", "5"), ("pnull", "null"), ("pmap", "{'m': {'k': 1}, 'a': 0}"), ("pdiv", "1 / 0"), ("pidx", "[1][5]"),
+            ("pabs", "{'a': 1}.zz"), ("punb", "qqq_unbound"),
+        ]
+        .iter()
+        .filter_map(|(n, s)| compile(s).ok().map(|p| (n.to_string(), p)))
+        .collect();
+    }
+    PROGS.with(|p| p.clone())
+}
+
 fn run_src(src: &str, cx: &Ctx) -> ExecOut {
     match compile(src) {
-        Ok(p) => exec_full(&[("main".to_string(), p)], "main", &cx.binds, &cx.users),
+        Ok(p) => {
+            let mut progs = stored_programs();
+            progs.push(("main".to_string(), p));
+            exec_full(&progs, "main", &cx.binds, &cx.users)
+        }
         Err(e) => ExecOut { obs: e, log: "L:0".into() },
     }
 }
 
 fn queue(pending: &mut Vec<Pending>, src: &str, cx: &Ctx, out: &ExecOut, note: &str) {
     pending.push(Pending {
-        request: format!("exec {} {}", env_wire(&[], &cx.binds, &cx.users), hex(src.as_bytes())),
+        request: format!("exec {} {}", env_wire(&stored_programs(), &cx.binds, &cx.users), hex(src.as_bytes())),
         implementation: format!("{} {}", out.obs, out.log),
         level: 2,
         input: format!("{}{}", src, note),
@@ -444,6 +463,11 @@ fn other_args() -> Vec<(&'static str, &'static str)> {
         ("[]", "value"), ("{}", "value"), ("lst[0]", "value"), ("(1 + z0)", "value"), ("tick(2)", "value"),
         ("tnull(3)", "value"), ("r1.n", "value"), ("r1['m']['k']", "value"), ("has(q)", "value"), ("coalesce(q)", "value"),
         ("int", "value"), ("(z0 == 0 || 1/z0 == 1)", "value"), ("[1].map(x, x)", "value"),
+        // stored programs referenced by name: a failing one is a failed operand of its own kind, not "absent"
+        ("pval", "value"), ("pnull", "value"), ("pmap", "value"), ("pmap.m.k", "value"), ("(pval + 1)", "value"),
+        ("pabs", "absent"), ("punb", "absent"), ("pmap.zz", "absent"), ("pmap.a.zz", "absent"), ("(punb + 1)", "absent"),
+        ("pdiv", "fails"), ("pidx", "fails"), ("pdiv.a", "fails"), ("(pdiv + 1)", "fails"), ("[1].map(x, pdiv)", "fails"),
+        ("pmap[0]", "fails"), ("tick(pidx)", "fails"),
         // absent data, also inside a larger expression (a failed operand is handed on by operators)
         ("q", "absent"), ("(q + 1)", "absent"), ("(1 + q)", "absent"), ("q.a", "absent"), ("q.a.b.c", "absent"),
         ("r1.zz", "absent"), ("r1['zz']", "absent"), ("r1.m.zz", "absent"), ("r1.a.zz", "absent"), ("r1.n.zz", "absent"),
@@ -506,6 +530,9 @@ fn catoms(extended: bool) -> Vec<CAtom> {
         CAtom { src: "(1/z0)", class: "fails", logs: None },
         CAtom { src: "lst[5]", class: "fails", logs: None },
         CAtom { src: "(pv + 1)", class: "fails", logs: None },
+        CAtom { src: "pdiv", class: "fails", logs: None },
+        CAtom { src: "pmap.zz", class: "absent", logs: None },
+        CAtom { src: "pnull", class: "null", logs: None },
         CAtom { src: "tick(#)", class: "present", logs: Some("7469636b") },
         CAtom { src: "tnull(#)", class: "null", logs: Some("746e756c6c") },
         CAtom { src: "{'k': tick(#)}.zz", class: "absent", logs: Some("7469636b") },
